@@ -285,8 +285,25 @@ structure Grammar where
   recursive : List Sym
   deriving Repr, Inhabited
 
+mutual
+def Ty.size : Ty → Nat
+  | .list t => 1 + Ty.size t
+  | .ann t _ => 1 + Ty.size t
+  | .tuple ts => 1 + Ty.sizeList ts
+  | .union ts => 1 + Ty.sizeList ts
+  | _ => 1
+def Ty.sizeList : List Ty → Nat
+  | [] => 0
+  | t :: ts => Ty.size t + Ty.sizeList ts
+end
+
+/-- total size of the declarations: registration spends one unit of fuel per class, per field
+and per type-nesting level -/
+def specSize (g : GrammarSpec) : Nat :=
+  (g.classes.map fun c => 1 + (c.fields.map fun f => 1 + Ty.size f.2).sum).sum + g.considered.length
+
 def regFuel (g : GrammarSpec) : Nat :=
-  4 * (g.classes.length + 2) * (g.classes.length + 2) + 64
+  4 * (g.classes.length + 2) * (g.classes.length + 2) * (specSize g + 2) + 64
 
 def analyse (g : GrammarSpec) : Grammar :=
   let r := regTy g.classes g.considered (regFuel g) (.cls g.start) {}
